@@ -1,7 +1,7 @@
 /-
   M-Pack — model, over SIZES, of how ExaBGP cuts one `UpdateCollection` into UPDATE messages.
 
-  Code modelled (read statement by statement):
+  Code modelled (read statement by statement, /repo after 9c66abf + b4bc906):
     * `exabgp/bgp/message/update/collection.py : UpdateCollection.messages`
     * `exabgp/bgp/message/update/nlri/collection.py : MPNLRICollection.packed_reach_attributes`,
       `packed_unreach_attributes`, `_attr_len`, `_attribute_header`
@@ -18,13 +18,16 @@
   arrive sorted), the iteration order of the Python `set` `all_mp_families` (`famOrder`), and
   which families have SAFI unicast/multicast (`simple`).
 
-  Python facts kept on purpose:
-    * after the IPv4 loops `withdraws` / `announced` are NOT reset, so the first MP family's
-      first message carries the last IPv4 message's NLRIs again (`famLoop … w a`);
-    * `maximum` may be negative in Python; `Nat` subtraction gives 0 instead and every test
-      `attr_len(..) > maximum` has the same outcome because `attr_len(..) ≥ 3`;
-    * generators are lazy: messages yielded before a `RuntimeError` / `struct.error` have been
-      sent, the attribute in hand at that point has not.
+  Reading notes:
+    * an NLRI that cannot fit even alone (`packed_size > msg_size`, resp.
+      `_attr_len(header_length + len(packed_nlri)) > maximum`) is left out with a `log.critical`
+      and the loop carries on (`continue`); nothing is raised, nothing else is dropped;
+    * `withdraws` / `announced` are reset to `b''` once the IPv4 part has been sent and are never
+      assigned anything else afterwards, so in the MP loop they are empty: the model's MP
+      messages have empty classic fields (`mkMsg attr [] … []`);
+    * both MP generators get the whole `msg_size`; whether the first MP_UNREACH shares the
+      message of the pending MP_REACH is decided where the message is assembled (`feedUnreach`);
+    * `_message` still has a 16-bit length field (`struct.error` above 65535): `cut`.
   Import-free: the driver links against this file.
 -/
 namespace Exa.Pack
@@ -35,7 +38,7 @@ structure Nlri where
   size : Nat
   /-- `(afi, safi)` as an identifier -/
   fam : Nat
-  /-- the code's `is_v4`: afi ipv4, safi unicast/multicast (and next hop ipv4 for an announce) -/
+  /-- the code's `is_v4`: afi ipv4, safi unicast (and next hop ipv4 for an announce) -/
   v4 : Bool
   /-- identity and length of the encoded next hop (announces) -/
   nh : Nat
@@ -97,10 +100,8 @@ def Msg.wdsOf (m : Msg) : List Nlri :=
 inductive Status where
   /-- the generator ran to its end -/
   | ok
-  /-- `log.critical('… attributes_too_large')` then `return` -/
+  /-- `msg_size <= 0`: `log.critical('… attributes_too_large')` then `return` before any NLRI -/
   | noRoom
-  /-- `RuntimeError('NLRI too large for attribute size limit')` -/
-  | raised
   /-- `struct.error` from `pack('!H', 19 + len(message))` in `_message` -/
   | tooLong
 deriving DecidableEq, Repr
@@ -145,41 +146,37 @@ structure V4Res where
   msgs : List Msg
   w : List Nlri
   a : List Nlri
-  bailed : Bool
 deriving Repr
 
 /-- `for nlri in v4_announces:` -/
 def v4AnnLoop (ms attr : Nat) : List Nlri → List Nlri → List Nlri → V4Res
-  | [], w, a => { msgs := [], w := w, a := a, bailed := false }
+  | [], w, a => { msgs := [], w := w, a := a }
   | x :: xs, w, a =>
-    if sz a + sz w + x.size ≤ ms then v4AnnLoop ms attr xs w (a ++ [x])
-    else if sz w = 0 ∧ sz a = 0 then { msgs := [], w := w, a := a, bailed := true }
+    if x.size > ms then v4AnnLoop ms attr xs w a                      -- left out, `continue`
+    else if sz a + sz w + x.size ≤ ms then v4AnnLoop ms attr xs w (a ++ [x])
     else
       let r := v4AnnLoop ms attr xs [] [x]
       { r with msgs := mkMsg attr w none true none a :: r.msgs }
 
 /-- `for nlri in v4_withdraws:` -/
 def v4WdLoop (ms attr : Nat) : List Nlri → List Nlri → List Nlri → V4Res
-  | [], w, a => { msgs := [], w := w, a := a, bailed := false }
+  | [], w, a => { msgs := [], w := w, a := a }
   | x :: xs, w, a =>
-    if sz a + sz w + x.size ≤ ms then v4WdLoop ms attr xs (w ++ [x]) a
-    else if sz w = 0 ∧ sz a = 0 then { msgs := [], w := w, a := a, bailed := true }
+    if x.size > ms then v4WdLoop ms attr xs w a                       -- left out, `continue`
+    else if sz a + sz w + x.size ≤ ms then v4WdLoop ms attr xs (w ++ [x]) a
     else
       let r := v4WdLoop ms attr xs [x] []
       { r with msgs := mkMsg attr w none (sz a ≠ 0) none a :: r.msgs }
 
 /-! ### `packed_reach_attributes` / `packed_unreach_attributes` -/
 
-/-- The inner loop over one list of packed NLRIs sharing a header of `hdr` bytes.
-    Returns the NLRI lists of the attributes yielded and whether `RuntimeError` was raised. -/
-def splitGroup (maxi hdr : Nat) : List Nlri → List Nlri → List (List Nlri) × Bool
-  | [], cur => (if sz cur > 0 then [cur] else [], false)
+/-- The inner loop over one list of packed NLRIs sharing a header of `hdr` bytes: the NLRI lists
+    of the attributes yielded. -/
+def splitGroup (maxi hdr : Nat) : List Nlri → List Nlri → List (List Nlri)
+  | [], cur => if sz cur > 0 then [cur] else []
   | x :: xs, cur =>
-    if attrLen (hdr + sz cur + x.size) > maxi then
-      if sz cur = 0 then ([], true)
-      else
-        let r := splitGroup maxi hdr xs [x]
-        (cur :: r.1, r.2)
+    if attrLen (hdr + x.size) > maxi then splitGroup maxi hdr xs cur   -- left out, `continue`
+    else if attrLen (hdr + sz cur + x.size) > maxi then cur :: splitGroup maxi hdr xs [x]
     else splitGroup maxi hdr xs (cur ++ [x])
 
 /-- keys of a dict filled with `setdefault`, i.e. in order of first appearance -/
@@ -194,73 +191,60 @@ def groupsOf (xs : List Nlri) : List ((Nat × Nat) × List Nlri) :=
   (firsts (xs.map nhKey)).map (fun k => (k, xs.filter (fun x => nhKey x = k)))
 
 /-- `for nexthop, packed_nlris in mpnlri.items():` -/
-def reachGen (maxi fam : Nat) : List ((Nat × Nat) × List Nlri) → List Mp × Bool
-  | [] => ([], false)
+def reachGen (maxi fam : Nat) : List ((Nat × Nat) × List Nlri) → List Mp
+  | [] => []
   | (k, xs) :: gs =>
-    let r := splitGroup maxi (5 + k.2) xs []
-    let attrs := r.1.map (fun it => ({ fam := fam, nh := k.1, nhLen := k.2, hdr := 5 + k.2, items := it } : Mp))
-    if r.2 then (attrs, true)
-    else
-      let r' := reachGen maxi fam gs
-      (attrs ++ r'.1, r'.2)
+    (splitGroup maxi (5 + k.2) xs []).map
+        (fun it => ({ fam := fam, nh := k.1, nhLen := k.2, hdr := 5 + k.2, items := it } : Mp))
+      ++ reachGen maxi fam gs
 
-def unreachGen (maxi fam : Nat) (xs : List Nlri) : List Mp × Bool :=
-  let r := splitGroup maxi 3 xs []
-  (r.1.map (fun it => ({ fam := fam, nh := 0, nhLen := 0, hdr := 3, items := it } : Mp)), r.2)
+def unreachGen (maxi fam : Nat) (xs : List Nlri) : List Mp :=
+  (splitGroup maxi 3 xs []).map (fun it => ({ fam := fam, nh := 0, nhLen := 0, hdr := 3, items := it } : Mp))
 
-/-! ### the MP loop of `messages` -/
+/-! ### the MP loop of `messages` (`withdraws` = `announced` = `b''` throughout) -/
 
 structure MpSt where
-  w : List Nlri
-  a : List Nlri
   reach : Option Mp
   unreach : Option Mp
 deriving Repr
 
 /-- `for mprnlri in …packed_reach_attributes(…): if mp_reach: yield …; mp_reach = mprnlri` -/
-def feedReach (attr : Nat) : List Mp → List Nlri → List Nlri → Option Mp → List Msg × MpSt
-  | [], w, a, p => ([], { w := w, a := a, reach := p, unreach := none })
-  | r :: rs, w, a, none => feedReach attr rs w a (some r)
-  | r :: rs, w, a, some p =>
-    let x := feedReach attr rs [] [] (some r)
-    (mkMsg attr w none true (some p) a :: x.1, x.2)
+def feedReach (attr : Nat) : List Mp → Option Mp → List Msg × Option Mp
+  | [], p => ([], p)
+  | r :: rs, none => feedReach attr rs (some r)
+  | r :: rs, some p =>
+    let x := feedReach attr rs (some r)
+    (mkMsg attr [] none true (some p) [] :: x.1, x.2)
 
-/-- `for mpurnlri in …packed_unreach_attributes(…): if mp_unreach: yield …; mp_unreach = mpurnlri` -/
-def feedUnreach (attr : Nat) : List Mp → List Nlri → List Nlri → Option Mp → Option Mp → List Msg × MpSt
-  | [], w, a, p, u => ([], { w := w, a := a, reach := p, unreach := u })
-  | x :: xs, w, a, p, none => feedUnreach attr xs w a p (some x)
-  | x :: xs, w, a, p, some u =>
-    let y := feedUnreach attr xs [] [] none (some x)
-    (mkMsg attr w (some u) true p a :: y.1, y.2)
+/-- `for mpurnlri in …packed_unreach_attributes(…):`
+    `if mp_unreach or len(mp_reach) + len(mpurnlri) > msg_size: yield …; mp_reach = b''`
+    `mp_unreach = mpurnlri` -/
+def feedUnreach (ms attr : Nat) : List Mp → Option Mp → Option Mp → List Msg × MpSt
+  | [], p, u => ([], { reach := p, unreach := u })
+  | x :: xs, p, u =>
+    if u.isSome ∨ owire p + x.wire > ms then
+      let y := feedUnreach ms attr xs none (some x)
+      (mkMsg attr [] u true p [] :: y.1, y.2)
+    else feedUnreach ms attr xs p (some x)
 
 /-- the final `if mp_unreach or mp_reach or withdraws or announced: yield …` of one family -/
 def famFinal (attr : Nat) (s : MpSt) : List Msg :=
-  if s.unreach.isSome ∨ s.reach.isSome ∨ sz s.w ≠ 0 ∨ sz s.a ≠ 0 then
-    [mkMsg attr s.w s.unreach true s.reach s.a]
-  else []
+  if s.unreach.isSome ∨ s.reach.isSome then [mkMsg attr [] s.unreach true s.reach []] else []
 
-/-- body of `for family in all_mp_families:`; `(messages yielded, RuntimeError raised)` -/
-def famStep (inclW : Bool) (ms attr fam : Nat) (ra wa : List Nlri) (w a : List Nlri) : List Msg × Bool :=
-  let rg := reachGen (ms - (sz w + sz a)) fam (groupsOf ra)
-  let fr := feedReach attr rg.1 w a none
-  if rg.2 then (fr.1, true)
-  else if inclW then
-    let ug := unreachGen (ms - (sz fr.2.w + sz fr.2.a + owire fr.2.reach)) fam wa
-    let fu := feedUnreach attr ug.1 fr.2.w fr.2.a fr.2.reach none
-    if ug.2 then (fr.1 ++ fu.1, true)
-    else (fr.1 ++ fu.1 ++ famFinal attr fu.2, false)
-  else (fr.1 ++ famFinal attr fr.2, false)
+/-- body of `for family in all_mp_families:` -/
+def famStep (inclW : Bool) (ms attr fam : Nat) (ra wa : List Nlri) : List Msg :=
+  let fr := feedReach attr (reachGen ms fam (groupsOf ra)) none
+  if inclW then
+    let fu := feedUnreach ms attr (unreachGen ms fam wa) fr.2 none
+    fr.1 ++ fu.1 ++ famFinal attr fu.2
+  else fr.1 ++ famFinal attr { reach := fr.2, unreach := none }
 
-/-- `for family in all_mp_families:` — `withdraws`/`announced` are reset only at the END of each
-    iteration, so the first family starts with whatever the IPv4 part left. -/
-def famLoop (inclW : Bool) (ms attr : Nat) (ma mw : List Nlri) : List Nat → List Nlri → List Nlri → List Msg × Bool
-  | [], _, _ => ([], false)
-  | f :: fs, w, a =>
-    let r := famStep inclW ms attr f (ma.filter (fun x => x.fam = f)) (mw.filter (fun x => x.fam = f)) w a
-    if r.2 then (r.1, true)
-    else
-      let r' := famLoop inclW ms attr ma mw fs [] []
-      (r.1 ++ r'.1, r'.2)
+/-- `for family in all_mp_families:` -/
+def famLoop (inclW : Bool) (ms attr : Nat) (ma mw : List Nlri) : List Nat → List Msg
+  | [] => []
+  | f :: fs =>
+    famStep inclW ms attr f (ma.filter (fun x => x.fam = f)) (mw.filter (fun x => x.fam = f))
+      ++ famLoop inclW ms attr ma mw fs
 
 structure Out where
   msgs : List Msg
@@ -277,7 +261,7 @@ def v4Final (attr : Nat) (w a : List Nlri) : List Msg :=
 
 /-- `if include_withdraw: for nlri in v4_withdraws: …` -/
 def v4WdPart (inclW : Bool) (ms attr : Nat) (vw w a : List Nlri) : V4Res :=
-  if inclW then v4WdLoop ms attr vw w a else { msgs := [], w := w, a := a, bailed := false }
+  if inclW then v4WdLoop ms attr vw w a else { msgs := [], w := w, a := a }
 
 /-- `messages` without the 16-bit limit of `_message` -/
 def packRaw (i : Input) : Out :=
@@ -291,14 +275,10 @@ def packRaw (i : Input) : Out :=
       if ms = 0 then { msgs := [], status := .noRoom }               -- msg_size == 0 and (has_v4 or has_mp)
       else
         let r1 := v4AnnLoop ms attr (v4Anns i) [] []
-        if r1.bailed then { msgs := r1.msgs, status := .noRoom }
-        else
-          let r2 := v4WdPart i.includeWithdraw ms attr (v4Wds i) r1.w r1.a
-          if r2.bailed then { msgs := r1.msgs ++ r2.msgs, status := .noRoom }
-          else
-            let mp := famLoop i.includeWithdraw ms attr (mpAnns i) (mpWds i) (mpFams i) r2.w r2.a
-            { msgs := r1.msgs ++ r2.msgs ++ v4Final attr r2.w r2.a ++ mp.1,
-              status := if mp.2 then .raised else .ok }
+        let r2 := v4WdPart i.includeWithdraw ms attr (v4Wds i) r1.w r1.a
+        { msgs := r1.msgs ++ r2.msgs ++ v4Final attr r2.w r2.a
+                    ++ famLoop i.includeWithdraw ms attr (mpAnns i) (mpWds i) (mpFams i),
+          status := .ok }
 
 /-- `_message`: `pack('!H', 19 + len(message))` raises for a message longer than 65535; what was
     yielded before has been sent. -/
@@ -312,7 +292,32 @@ def pack (i : Input) : Out :=
   let c := cut r.msgs
   { msgs := c.1, status := if c.2 then .tooLong else r.status }
 
-/-! ### the two excluded points of C09 (F19) as inputs
+/-! ### how many `log.critical('update.pack.error reason=attributes_too_large')` calls
+
+    Not a separate mechanism: the loops above visit every NLRI exactly once (nothing returns or
+    raises half-way), so the number of calls is 1 for the early `return`, and otherwise the number
+    of NLRIs visited that cannot fit alone.  The harness compares it with the calls it observes. -/
+
+def unfitCount (p : Nlri → Bool) (l : List Nlri) : Nat := (l.filter (fun x => !p x)).length
+
+def logged (i : Input) : Nat :=
+  if (v4Anns i).isEmpty && (v4Wds i).isEmpty && (mpAnns i).isEmpty && (mpWds i).isEmpty then 0
+  else
+    let attr := chosenAttr i
+    if i.M < 23 + attr then 1
+    else
+      let ms := i.M - 23 - attr
+      if ms = 0 then 1
+      else
+        unfitCount (fun x => x.size ≤ ms) (v4Anns i)
+        + (if i.includeWithdraw then unfitCount (fun x => x.size ≤ ms) (v4Wds i) else 0)
+        + ((mpFams i).map (fun f =>
+            unfitCount (fun x => attrLen (5 + x.nhLen + x.size) ≤ ms) ((mpAnns i).filter (fun x => x.fam = f))
+            + (if i.includeWithdraw then
+                unfitCount (fun x => attrLen (3 + x.size) ≤ ms) ((mpWds i).filter (fun x => x.fam = f))
+               else 0))).sum
+
+/-! ### the two points that were excluded before the repair (F19), kept as regression inputs
 
     Stated here (not in `Props/C09.lean`) so that the driver can print them in the line format and
     the harness can check that they are, field by field, what it measures on the REAL objects of
